@@ -36,6 +36,9 @@ def run(ctx):
                   bads=tuple(sorted(rng.sample(range(0, ln), rng.randint(1, 3)))) if i % 3 == 0 else ())
         t["enc"] = i % len(encs)
         t2.append(t)
+    for i in range(1 if q else 4):
+        p, cells = D.long_memory(rng)
+        t2.append(D.run(p, cells, rng.randrange(10 ** 6)))
     ctx.validate("LFR", t2, "regime-changing (y_true, y_pred) streams", sabotage=D.sabotage, replay=rep(t2),
                  nontrivial=lambda t: any(e["state"] == "drift" for e in t["ev"]))
     ctx.assumptions += ["Monte-Carlo bounds are bound to the private _bounds dictionary when readable (otherwise no decision is forced); on a key's "
